@@ -147,7 +147,34 @@ def gen_opts(r):
     return o
 
 
-def write_scn(r, d, names=None, **kw):
+def torch_scn(r):
+    """a small torch-profiler style input (top-level object with deviceProperties: the TORCH dialect): host ops that
+    launch kernels and copies, linked by External id / correlation"""
+    s = scenario.Scenario()
+    s.freq, s.ranks = 1024.0, 1
+    evs, t = [], float(r.randrange(1000, 5000))
+    for k in range(r.randrange(2, 7)):
+        d = float(r.randrange(20, 200))
+        evs.append({"ph": "X", "cat": "cpu_op", "name": r.choice(["aten::mm", "aten::add", "aten::relu"]), "pid": 0,
+                    "tid": 7, "ts": t, "dur": d, "args": {"External id": k + 1}})
+        evs.append({"ph": "X", "cat": "kernel", "name": r.choice(["mm_kernel", "add_kernel", "relu_kernel"]), "pid": 0,
+                    "tid": 9, "ts": t + 5.0, "dur": d / 4, "args": {"External id": k + 1, "correlation": 10 + k}})
+        if r.random() < 0.4:
+            evs.append({"ph": "X", "cat": "gpu_memcpy", "name": "Memcpy (DtoH)", "pid": 0, "tid": 9,
+                        "ts": t + 5.0 + d / 2, "dur": d / 8, "args": {"External id": k + 1, "correlation": 100 + k}})
+        t += d + float(r.randrange(1, 50))
+    s.files = {"torch_rank0.json": {"deviceProperties": [{"id": 0, "name": "AIU", "type": "aiu"}], "traceEvents": evs}}
+    s.meta["torch"] = True
+    return s
+
+
+def write_scn(r, d, names=None, torch=False, **kw):
+    if torch:
+        s = torch_scn(r)
+        os.makedirs(os.path.join(d, "in"), exist_ok=True)
+        for fn, evs in s.files.items():
+            json.dump(evs, open(os.path.join(d, "in", fn), "w"))
+        return s, ",".join("in/" + fn for fn in s.files)
     s = scenario.gen_scenario(r, **kw)
     if s.ranks >= 2 and r.random() < 0.5:
         collectives.add_chain_allreduce(r, s, n_groups=r.choice([1, 2]))
@@ -156,10 +183,14 @@ def write_scn(r, d, names=None, **kw):
     os.makedirs(os.path.join(d, "in"), exist_ok=True)
     for fn, evs in s.files.items():
         json.dump(evs, open(os.path.join(d, "in", fn), "w"))
+    if len(s.files) >= 2 and all(fn.startswith("rank") for fn in s.files) and r.random() < 0.3:
+        return s, "in/rank*.json"          # a wildcard instead of the explicit list (documented -i syntax)
     return s, ",".join("in/" + fn for fn in s.files)
 
 
 def argv_for(s, inp, out, opts, d, r):
+    if s.meta.get("torch"):         # no FLEX-only extras on a torch profile
+        opts = [o for o in opts if o not in ("rcu_util", "--comm_summarize_seq", "--flow", "--power-stats")]
     argv = ["-i", inp, "-o", out + "/o.json", "--freq", f"{s.freq}:1100.0", "-D", "0"] + opts
     if "rcu_util" in opts and "-c" not in opts:
         log = os.path.join(d, "in", "comp.log")
@@ -218,7 +249,7 @@ def run(ctx):
         jobs, cases = [], []
         for k in range(nscn):
             d = os.path.join(work, f"s{k}")
-            s, inp = write_scn(r, d)
+            s, inp = write_scn(r, d, torch=(k % 12 == 5))
             opts = gen_opts(r)
             for o in opts:
                 dist["options"][o] = dist["options"].get(o, 0) + 1
@@ -264,7 +295,8 @@ def run(ctx):
         for k in range(nh):
             d = os.path.join(work, f"h{k}")
             tname = [f"rank{i}_t{r.randrange(1000)}.json" for i in range(4)]
-            s, inp = write_scn(r, d, names=tname)
+            # every sixth history: the target is a torch profile (another dialect than the runs before it)
+            s, inp = write_scn(r, d, names=tname, torch=(k % 6 == 3))
             opts = gen_opts(r)
             targ = argv_for(s, inp, "out_hist", opts, d, r)
             fresh = argv_for(s, inp, "out_fresh", opts, d, r)
@@ -274,6 +306,8 @@ def run(ctx):
             for j in range(r.randrange(1, 4)):
                 dd = os.path.join(d, f"pre{j}")
                 u = r.random()
+                if s.meta.get("torch") and j == 0:
+                    u = 0.5                 # make sure a FLEX run with the torch target's job id comes first
                 if u < 0.4:
                     kind = r.choice(["bad_counter", "be_mismatch", "freq_contradiction"])
                     s2, inp2 = malformed(r, dd, kind)
